@@ -1,5 +1,6 @@
 import DryocVerif.Proofs.Poly1305Main
 import DryocVerif.Model.Utils
+import DryocVerif.Proofs.Blake2bMain
 /-
 C07 — hash, MAC and core primitives equal their specifications on every input.
 Property theorems only; helper lemmas live in `DryocVerif/Proofs`.
@@ -145,5 +146,33 @@ theorem incrementGo_length (bs : Bytes) (c : Nat) : (Model.Utils.incrementGo c b
   induction bs generalizing c with
   | nil => rfl
   | cons b bs ih => simp [Model.Utils.incrementGo, ih]
+
+/-! ### BLAKE2b (`crypto_generichash`, and the variable-length hash used by Argon2) -/
+
+open DryocVerif.Model.Blake2b in
+/-- The model of `blake2b_soft.rs` (parameter block, keyed init via a padded key block, the buffering
+`update`, `finalize`, the code-shaped `compress`) computes RFC 7693 BLAKE2b for every digest length
+1..=64, every key of 0..=64 bytes and every message (< 2^64 bytes). -/
+theorem blake2b_model_eq_spec (outLen : Nat) (key msg : Bytes) (ho : 1 ≤ outLen ∧ outLen ≤ 64)
+    (hk : key.length ≤ 64) (hlen : msg.length + 128 < 2^64) :
+    hash outLen msg (if key.isEmpty then none else some key) = .ok (Spec.Blake2b.hash outLen key msg) :=
+  Proofs.Blake2b.hash_model_eq_spec outLen key msg ho hk hlen
+
+open DryocVerif.Model.Blake2b in
+/-- `crypto_generichash` with its argument validation (digest 16..=64, key absent or 16..=64 bytes) -/
+theorem generichash_model_eq_spec (outLen : Nat) (key msg : Bytes) (ho : 16 ≤ outLen ∧ outLen ≤ 64)
+    (hk : key = [] ∨ (16 ≤ key.length ∧ key.length ≤ 64)) (hlen : msg.length + 128 < 2^64) :
+    generichash outLen msg (Proofs.Blake2b.keyOpt key) = .ok (Spec.Blake2b.hash outLen key msg) :=
+  Proofs.Blake2b.generichash_eq_spec outLen key msg ho hk hlen
+
+open DryocVerif.Model.Blake2b in
+/-- the code-shaped compression function (16 named state words, `g` closure, twelve explicit rounds)
+is the RFC 7693 compression function `F` -/
+theorem blake2b_compress_eq_spec (h : Array UInt64) (t0 t1 f0 f1 : UInt64) (block : Bytes) (T : Nat) (last : Bool)
+    (hh : h.size = 8) (hb : block.length = 128) (ht0 : UInt64.ofNat (T % 2^64) = t0)
+    (ht1 : UInt64.ofNat (T / 2^64 % 2^64) = t1)
+    (hf0 : f0 = if last then 0xFFFFFFFFFFFFFFFF else 0) (hf1 : f1 = 0) :
+    compress h t0 t1 f0 f1 block = Spec.Blake2b.compress h block T last :=
+  Proofs.Blake2b.compress_eq_spec h t0 t1 f0 f1 block T last hh hb ht0 ht1 hf0 hf1
 
 end DryocVerif.Properties.C07
